@@ -1211,7 +1211,9 @@ def run(ctx):
         for a, rebuilt, read in cached:
             if read and not rebuilt:
                 ctx.log("solver-created state not rebuilt by a new set-up: self.%s" % a)
-        ctx.write("Sites.v", gen_units.facts_coq(sites, flows, cached), sources=dict(
+        ctx.write("Sites.v", gen_units.facts_coq(sites, flows, cached,
+                                                 gen_units.default_values(src),
+                                                 gen_units.manager_methods(src)), sources=dict(
             setup_closure=setup_cl, solver_closure=solver_cl,
             files=["src/WallGo/" + f for f in gen_units.SITE_FILES],
             sha={f: vlib.sha(src[f]) for f in gen_units.SITE_FILES}))
